@@ -758,8 +758,22 @@ class Run:
             raise Unsupported("del of " + ast.unparse(t))
 
     def st_Try(self, s):
-        if s.finalbody or s.orelse:
-            raise Unsupported("try/finally or try/else")
+        if s.orelse:
+            raise Unsupported("try/else")
+        if s.finalbody:
+            # try / [except] / finally: the final block runs on every way out (normal, return, exception)
+            inner = ast.Try(body=s.body, handlers=s.handlers, orelse=[], finalbody=[]) if s.handlers else None
+            try:
+                if inner is not None:
+                    ast.copy_location(inner, s)
+                    self.st_Try(inner)
+                else:
+                    self.exec_block(s.body)
+            except (PyRaise, ReturnSig, BreakSig, ContinueSig):
+                self.exec_block(s.finalbody)
+                raise
+            self.exec_block(s.finalbody)
+            return
         try:
             self.exec_block(s.body)
         except PyRaise as e:
@@ -2040,7 +2054,7 @@ class PyEmptyDict(SV):
 
 
 BUILTIN_NAMES = {'len', 'sum', 'max', 'min', 'set', 'list', 'dict', 'range', 'zip', 'enumerate', 'reversed', 'sorted', 'float', 'int',
-                 'str', 'isinstance', 'hasattr', 'abs', 'round', 'all', 'any', 'type', 'iter', 'tuple',
+                 'str', 'isinstance', 'hasattr', 'getattr', 'abs', 'round', 'all', 'any', 'type', 'iter', 'tuple',
                  'NotImplementedError', 'ValueError', 'KeyError', 'TypeError', 'AttributeError', 'Exception',
                  'ZeroDivisionError', 'ImportError', 'UserWarning', 'DeprecationWarning', 'print', 'super'}
 
